@@ -182,4 +182,78 @@ def clientCall (f : LimitFacts) (limit : Option Nat) (st : ClientSt) (m : Messag
 def clientNotify (f : LimitFacts) (limit : Option Nat) (st : ClientSt) (m : Message) : ClientSt × SendRes :=
   clientWrite f limit st m
 
+/-! ### where the limit comes from: `WebSocketLimits` and the endpoints' constructors -/
+
+/-- `WebSocketLimits`. -/
+structure WsLimits where
+  maxIncomingFrame : Option Nat
+  maxIncomingMessage : Option Nat
+  assumedPeer : Option Nat
+  deriving DecidableEq, Repr
+
+/-- Facts about how limits are constructed, stored and handed to the guard. -/
+structure ConfigFacts where
+  /-- `DEFAULT_MAX_FRAME_SIZE`, `DEFAULT_MAX_MESSAGE_SIZE` -/
+  defaultFrame : Nat
+  defaultMessage : Nat
+  /-- `Default::default()` = `{Some(DEFAULT_MAX_FRAME_SIZE), Some(DEFAULT_MAX_MESSAGE_SIZE), Some(DEFAULT_MAX_FRAME_SIZE)}` -/
+  defaultIsDefaults : Bool
+  /-- `unlimited()` = three `None`s -/
+  unlimitedIsNone : Bool
+  /-- `with_assumed_peer_frame_limit(b)` sets exactly that field (and the two incoming setters theirs) -/
+  settersSetOwnField : Bool
+  /-- `check_outbound` matches on `self.assumed_peer_frame_limit` -/
+  guardReadsAssumed : Bool
+  /-- the transport config gets `max_frame_size`/`max_message_size` from the two incoming fields only -/
+  transportGetsIncomingOnly : Bool
+  /-- `WebSocketServer::new` stores `WebSocketLimits::default()`, `with_limits` stores its argument,
+  `into_shared` copies it, the writer task gets `config.limits`, `SharedWebSocketServer::limits()`/`accept`
+  return/use `self.config.limits` -/
+  serverThreadsLimits : Bool
+  /-- `proxy_connection(..)` = `proxy_connection_with_limits(.., WebSocketLimits::default())` and the latter
+  passes `&limits` to `frame_outbound` -/
+  proxyThreadsLimits : Bool
+  /-- `WebSocketClient::connect(url)` = `connect_with_limits(url, WebSocketLimits::default())`, which stores
+  `limits` in the client, `write_request` checks `self.inner.limits` -/
+  clientThreadsLimits : Bool
+  deriving DecidableEq, Repr
+
+def defaultLimits (c : ConfigFacts) : WsLimits :=
+  if c.defaultIsDefaults then ⟨some c.defaultFrame, some c.defaultMessage, some c.defaultFrame⟩
+  else ⟨none, none, none⟩
+
+def unlimitedLimits (c : ConfigFacts) : WsLimits :=
+  if c.unlimitedIsNone then ⟨none, none, none⟩ else defaultLimits c
+
+def withAssumed (c : ConfigFacts) (l : WsLimits) (b : Option Nat) : WsLimits :=
+  if c.settersSetOwnField then { l with assumedPeer := b } else l
+
+/-- How an embedder arrives at a `WebSocketLimits` value. -/
+inductive LimitsExpr where
+  | dflt | unlimited | lit (l : WsLimits)
+  | assumed (e : LimitsExpr) (b : Option Nat)
+  deriving Repr
+
+def LimitsExpr.eval (c : ConfigFacts) : LimitsExpr → WsLimits
+  | .dflt => defaultLimits c
+  | .unlimited => unlimitedLimits c
+  | .lit l => l
+  | .assumed e b => withAssumed c (e.eval c) b
+
+inductive Endpoint where
+  | server | proxy | client
+  deriving DecidableEq, Repr
+
+/-- The limit the outbound guard of an endpoint works with: `none` for "constructed without limits"
+(`WebSocketServer::new`, `proxy_connection`, `WebSocketClient::connect`), `some e` for the `*_with_limits`
+/ `with_limits` forms.  If the source no longer threads the value through, nothing is promised (no guard). -/
+def effectiveLimit (c : ConfigFacts) (ep : Endpoint) (given : Option LimitsExpr) : Option Nat :=
+  let threads := match ep with
+    | .server => c.serverThreadsLimits | .proxy => c.proxyThreadsLimits | .client => c.clientThreadsLimits
+  if threads && c.guardReadsAssumed then ((given.getD .dflt).eval c).assumedPeer else none
+
+/-- What the transport (tungstenite) is configured with: `(max_frame_size, max_message_size)`. -/
+def transportConfig (c : ConfigFacts) (l : WsLimits) : Option Nat × Option Nat :=
+  if c.transportGetsIncomingOnly then (l.maxIncomingFrame, l.maxIncomingMessage) else (l.assumedPeer, l.assumedPeer)
+
 end Repe
